@@ -5,6 +5,7 @@ from lib import pipeline
 LEVEL = "proof"
 MODEL_FILES = ["Model/GraphM.v", "Model/StableM.v", "Model/StableIO.v"]
 THEOREMS = []
+EXTRA_PROPS = ["C02b"]
 STREAMS = [("C02", 1500, 60000)]
 SHARD = 1500
 RELEASE_TOO = True
